@@ -18,6 +18,7 @@ const (
 	ClassValue = 3 // printable ASCII without { } | and whitespace/newline
 	ClassSmall = 4 // [ab./_-]  tiny path alphabet for deep bounds
 	ClassPrint = 5 // printable ASCII 0x20..0x7e
+	ClassSmallWS = 6 // [ab./_- \t] the tiny alphabet plus blank and tab (parameter values)
 )
 
 func (m *Machine) classPred(class int) func(ch *sym.Term) *sym.Term {
@@ -39,6 +40,8 @@ func (m *Machine) classPred(class int) func(ch *sym.Term) *sym.Term {
 		return func(ch *sym.Term) *sym.Term { return c.CharIn(ch, "ab./_-") }
 	case ClassPrint:
 		return func(ch *sym.Term) *sym.Term { return c.CharRange(ch, 0x20, 0x7e) }
+	case ClassSmallWS:
+		return func(ch *sym.Term) *sym.Term { return c.CharIn(ch, "ab./_- \t") }
 	}
 	return func(ch *sym.Term) *sym.Term { return c.CharRange(ch, 0x01, 0x7f) }
 }
@@ -80,6 +83,8 @@ func classBytePred(class int) func(b byte) bool {
 		return func(b byte) bool { return in(b, "ab./_-") }
 	case ClassPrint:
 		return func(b byte) bool { return b >= 0x20 && b <= 0x7e }
+	case ClassSmallWS:
+		return func(b byte) bool { return in(b, "ab./_- \t") }
 	}
 	return func(b byte) bool { return b >= 1 && b <= 0x7f }
 }
